@@ -5,7 +5,7 @@ import Bardolph.Proofs.SimTop
 import Bardolph.Proofs.SimDefs
 /-!
 # C01 — the compiled code does what the source says (simulation; scripts of the fragment with
-routine definitions anywhere outside matrix blocks, through the loader)
+routine definitions anywhere, through the loader)
 
 `Sem` is the source-level semantics (the specification), `Gen` the code generator, `Vm` the
 machine.  For every block of the fragment `Sim.FragBlock` (below) and every fuel: if the source
@@ -77,15 +77,14 @@ scratch on the machine — and on the REAL implementation — while `Sem` says `
 (`define f begin print 5 end  assign x [f]  print x` prints 5 twice on the real machine).  Calls as
 STATEMENTS need no such condition.
 Routine DEFINITIONS are covered by `C01_gen_sim_defs` (below), wherever they stand — top level,
-inside `if` branches and `repeat` bodies, at any depth (`Sim.DefBlock V b`: the script with every
+inside `if` branches, `repeat` bodies and matrix-block bodies, at any depth (`Sim.DefBlock V b`: the script with every
 definition replaced by a statement that does nothing, `Sim.stripB b`, is in the fragment, and the
 bodies of the definitions are blocks of the fragment): the hypothesis `RoutinesAt` is PROVED of
 the image `Loader.load` makes, and the machine runs from its initial state — through the loader's
 `JUMP` over the routines — to `halted`.  (`C01_gen_sim_top` is the earlier, direct proof for
 definitions at the top level only.)
-Not covered: routine definitions inside MATRIX-BLOCK bodies (`Sem.collect` does not look there:
-`Sem` does not know such a routine, the loader does) and inside routine bodies (rejected by the
-compiler); calls in the arguments
+Not covered: routine definitions inside routine bodies (rejected by the compiler); calls in the
+arguments
 of `printf` (values already queued for the `printf` would have to survive the call: the relation
 in a callee has no pending output).
 
@@ -102,6 +101,9 @@ their meaning follows `Sem`; all of it was validated against the REAL implementa
   (the number of passes is not affected).  Before, `Sem` bound precomputed values pass by pass and
   assigned nothing without a pass — which the machine does not do; `harness/c04.py` reads the
   variable after loops of every form against the real implementation;
+* `Sem.collect` also collects the routine definitions inside the bodies of MATRIX BLOCKS (the
+  loader extracts them like any other, and the real implementation runs
+  `set "m" begin define f begin print 7 end stage row 0 end  f`; `Sem` said "unknown routine f");
 * the sources of `repeat in a and b and …` are EVALUATED from the last to the first (they are
   still VISITED in the order written; only calls in the names of sources could tell, and those are
   outside the fragment); the members of a group or location are visited once each (`dedupSorted`;
@@ -120,7 +122,7 @@ The full statement (`gen_sim`, DESIGN §6 C01), of which the theorems below are 
 for every well-formed script `b` (all statement forms, routines defined anywhere).
 `C01_gen_sim_defs` is exactly this statement with `WellFormed b` replaced by
 `Sim.DefBlock V b ∧ Closed.wsBlock Kn false false false b = true`: statements of the fragment and
-routine definitions (top level or nested in `if` / `repeat` bodies) with bodies of the fragment
+routine definitions (top level or nested in `if` / `repeat` / matrix-block bodies) with bodies of the fragment
 (those in `V` ending with `return`), accepted by the scope check that the compiler makes
 (`Closed.wsBlock`, the predicate of C06: calls of known names only, `return` only inside routines,
 `break` only inside loops, no definition inside a routine).  The scope check is used through C06's
@@ -143,7 +145,6 @@ How `C01_gen_sim_defs` is proved:
   reversed end, so the LAST definition of a name wins, as in `Sem.run`);
 * `C01_gen_sim_partial` for `stripB b` does the rest.
 What is missing for the full statement:
-* routine definitions inside matrix-block bodies (see above: a gap of `Sem.collect`);
 * calls in the arguments of `printf` (values already queued for the `printf` would have to survive
   the call), and value calls of routines that may run off their end (see `V` above);
 Restrictions of the fragment that are forced by the MODEL (source semantics and machine disagree
@@ -1560,6 +1561,65 @@ example : (Loader.load nestedCode).code[34]? = some (.jump .ifFalse 5) ∧
 
 example : (Sem.run 200 nestedScript []).2.vm.trace.reverse =
     [.out (.int 1), .out (.int 9), .out (.int 24), .newline] := by decide +kernel
+
+/-! ### ninth example: a routine defined inside the body of a matrix block
+
+```
+hue 10
+set "m" begin define f begin print 7 end  stage row 0 end
+f
+print 3
+```
+(the real implementation accepts this and prints 7 and 3; before `Sem.collect` looked into matrix
+blocks, `Sem` said "unknown routine f") -/
+
+def matScript : Block := Block.ofList [
+  .setReg .hue (.lit (.int 10)),
+  .action .set (.cons (.matrixBlock (.str "m") (Block.ofList [
+    .defRoutine "f" [] (Block.ofList [.print (.lit (.int 7))]),
+    .stage (some ⟨.lit (.int 0), none⟩) none false])) .nil),
+  .call "f" [] .nil,
+  .print (.lit (.int 3))]
+
+def matCode : List Instr := [
+  .moveq (.int 10) (.reg .hue), .wait, .moveq (.str "m") (.reg .name), .matrix, .routine "f",
+  .moveq (.int 7) (.reg .result), .out .register (.reg .result), .out .print (.lit .none), .end_ "f",
+  .moveq (.operand .matrix) (.reg .operand), .moveq (.int 0) (.reg .firstRow),
+  .moveq .none (.reg .lastRow), .moveq .none (.reg .firstColumn), .moveq .none (.reg .lastColumn),
+  .color, .endMatrix, .moveq (.operand .matrixLight) (.reg .operand), .color, .ctx, .jsr "f", .endCtx,
+  .moveq (.int 3) (.reg .result), .out .register (.reg .result), .out .print (.lit .none)]
+
+theorem matScript_def : DefBlock (fun _ => False) matScript := by
+  constructor
+  · simp only [matScript, Block.ofList, stripB, stripS, stripOps, stripOp, FragBlock, FragStmt, RvC,
+      ExprC, ArgsC, FragOperands, FragOperand, ORangeOK, RangeOK]
+    refine ⟨?_, ?_, ?_, ?_⟩
+    all_goals first
+      | trivial
+      | decide
+      | (repeat' constructor) <;> first | trivial | decide | nofun
+  · intro d hd
+    simp only [matScript, Block.ofList, Sem.collect, Sem.collectOps, List.append_nil, List.cons_append,
+      List.nil_append, List.mem_cons, List.not_mem_nil, or_false] at hd
+    subst hd
+    refine ⟨?_, fun h => h.elim⟩
+    simp only [Block.ofList, FragBlock, FragStmt, RvC]
+    exact ⟨trivial, trivial⟩
+
+set_option maxRecDepth 8000 in
+theorem matScript_code : Gen.genProgram matScript = some matCode := by
+  simp [Gen.genProgram, matScript, Block.ofList, genBlock, genStmt, genRv, genOperands, genOperand,
+    genName, genMatrixRanges, genRange, genCall, genParams, opcodeOf, ins, result, matCode]
+
+example : ∃ k, (run (Loader.load matCode) k (Vm.init c01Lights2)).status = .halted ∧
+    (Vm.finish (run (Loader.load matCode) k (Vm.init c01Lights2))).trace =
+      .flush :: (Sem.run 200 matScript c01Lights2).2.vm.trace :=
+  C01_gen_sim_defs (Wf.builtinNames ++ ["f"]) matScript matScript_def (by decide +kernel) matCode
+    matScript_code 200 c01Lights2 (Sem.run 200 matScript c01Lights2).2 (eq_of_fst (by decide +kernel))
+
+example : (Sem.run 200 matScript c01Lights2).2.vm.trace.reverse =
+    [.setTile "m" [[1820, 0, 0, 0], [1820, 0, 0, 0], [0, 0, 0, 0], [0, 0, 0, 0]] 0 2 2,
+     .out (.int 7), .out (.int 3)] := by decide +kernel
 
 /-! ### why the fragment excludes reading `result` and `setReg unitMode`: on these scripts the
 source semantics and the machine (both of the MODEL) disagree
